@@ -1131,7 +1131,11 @@ class Interp:
         if short in ("sqrt", "exp", "abs", "tanh", "cos", "sin", "log") and len(args) == 1:
             a = args[0]
             if _is_num(a):
-                return Unknown("numeric function")
+                nm = "%s{%r}" % (short, a)
+                self.fn_args[nm] = (short, a, ())
+                if not isinstance(a, complex):
+                    self.havoced[nm] = True     # real argument -> real value (sqrt of a non-negative literal)
+                return Expr.factor(nm)
             if isinstance(a, Expr):
                 nf = ta.normal(a)
                 free = sorted(a.free())
